@@ -21,6 +21,9 @@ Supported subset
   specialise  `type(x) is tuple|str|list|...` is decided by the declared type of x; a statically false `if` branch is not translated;
               `for a, b in zip(xs, list(np.arange(0, n)))`, `range(a, b)`; `break` in a for body (flag carried through the fold);
               `if s:` on a str; f-string of a list[int]; cfg `dict_effect`: `d[k] = {<fixed entries>, 'value': e}` recorded as (k, e) appended to d
+  cfg-driven  `raise` = None; `self.<m>(...)` as a statement where <m> is another target (`calls`): bound for its exception; `return self.<m>(...)`
+              with `return_call_names`: the name "<m>"; `opaque`: a test whose source text is listed becomes a bool argument; `ignore`: parameters
+              the translated part does not read; `self_consts`: class attribute that must be a literal tuple/list of str; `returns_none`
   statements  assignment / augmented assignment to a name, `self.<attr>` or `d[k]`; `x.append(e)`; if/elif/else (the rest of the
               block is duplicated into both branches, so early `return` is fine); `return e`;
               `for x in xs` / `for i, x in enumerate(xs)` -> fold_left over a tuple of the loop-carried variables
@@ -65,6 +68,14 @@ TARGETS = [
     dict(name="get_indexed_var_str", file="pyrates/ir/circuit.py", cls=None, func="_get_indexed_var_str",
          types={"var": STR, "idx": LIST(Z), "var_length": Z, "reduce": BOOL, "idx_str": STR, "arg_dict": ADICT}, state=["arg_dict"],
          dict_effect=dict(var="arg_dict", value="value", rest={"vtype": "'constant'", "dtype": "'int'", "shape": "(len(idx),)"})),
+    # string-level solver contract (C20): raise -> None; `return self._m(...)` -> the name "_m" of the method that runs; the DDE test of
+    # `_solve` is an opaque bool argument; SUPPORTED_SOLVERS is read from the class attribute (must be a literal tuple/list of str)
+    dict(name="validate_solver", file="pyrates/backend/base/base_backend.py", cls="BaseBackend", func="_validate_solver",
+         types={"solver": STR}, self_consts=["SUPPORTED_SOLVERS"], returns_none=True),
+    dict(name="solve_dispatch", file="pyrates/backend/base/base_backend.py", cls="BaseBackend", func="_solve",
+         types={"solver": STR, "has_dde": BOOL}, ignore=["func", "args", "T", "dt", "dts", "y0", "t0", "times"], kwargs_ok=True,
+         opaque={"len(args) > 0 and isinstance(args[0], DDEHistory)": "has_dde"}, calls={"_validate_solver": "validate_solver"},
+         return_call_names=True),
     dict(name="replace", file="pyrates/backend/parser.py", cls=None, func="replace",
          types={"eq": STR, "term": STR, "replacement": STR, "rhs_only": BOOL, "lhs_only": BOOL}, fuel="(S (S (String.length eq)))"),
 ]
@@ -137,6 +148,7 @@ class Tr:
         v = self.fresh("t"); self.binds.append((v, term))
         return v, t
     def ex(self, e):
+        if ast.unparse(e) in self.cfg.get("opaque", {}): return self.cfg["opaque"][ast.unparse(e)], BOOL    # a test the model does not interpret
         if isinstance(e, ast.Constant):
             v = e.value
             if isinstance(v, bool): return ("true" if v else "false"), BOOL
@@ -276,6 +288,14 @@ class Tr:
             for t, p in reversed(binds): body = f"py_bind {p} (fun {t} =>\n{body})"
             return body
         return a, ta, wrap
+    def sxs(self, es):
+        self.binds = []
+        terms = [self.ex(e)[0] for e in es]
+        binds = self.binds
+        def wrap(body):
+            for t, p in reversed(binds): body = f"py_bind {p} (fun {t} =>\n{body})"
+            return body
+        return terms, None, wrap
     def bind_var(self, v, t):
         if v in self.env and not same(self.env[v], t): raise Unsupported(f"`{v}` changes type from {ty(self.env[v])} to {ty(t)}")
         if v not in self.env: self.env[v] = t
@@ -288,6 +308,16 @@ class Tr:
         if not stmts: return k()
         s, rest = stmts[0], stmts[1:]
         go = lambda: self.block(rest, k, in_loop)
+        if isinstance(s, ast.Raise):                                   # any exception = None (its message is not translated)
+            self.need_partial("raise"); return "None"
+        if isinstance(s, ast.Expr) and isinstance(s.value, ast.Call) and isinstance(s.value.func, ast.Attribute) and nm(s.value.func.value) == "self" \
+                and s.value.func.attr in self.cfg.get("calls", {}) and not s.value.keywords:
+            self.need_partial("call of a partial function")             # another regenerated function, called for its exception only
+            args, _, wrap = self.sxs(s.value.args)
+            return wrap(f"py_bind ({self.cfg['calls'][s.value.func.attr]} {' '.join(args)}) (fun _ =>\n{go()})")
+        if isinstance(s, ast.Return) and self.cfg.get("return_call_names") and isinstance(s.value, ast.Call) and isinstance(s.value.func, ast.Attribute) \
+                and nm(s.value.func.value) == "self" and not in_loop:
+            return f'Some "{s.value.func.attr}"%string' if self.partial else f'"{s.value.func.attr}"%string'   # which method runs
         if isinstance(s, ast.Return):
             if in_loop or s.value is None: raise Unsupported("return inside a loop / bare return")
             a, _, wrap = self.sx(s.value)
@@ -403,9 +433,12 @@ def translate(cfg):
     if len(fs) != 1: raise Unsupported(f"{len(fs)} definitions of {cfg['func']}")
     fn = fs[0]
     src = ast.get_source_segment(text, fn)
+    if fn.args.kwarg and cfg.get("kwargs_ok"): fn.args.kwarg = None
     if [d for d in fn.decorator_list if not (isinstance(d, ast.Name) and d.id == "staticmethod")] or fn.args.vararg or fn.args.kwarg or fn.args.kwonlyargs or not all(isinstance(d, ast.Constant) for d in fn.args.defaults):
         raise Unsupported("decorators / non-constant defaults / *args")
-    params = [a.arg for a in fn.args.args if a.arg != "self"] + [v for v in cfg["types"] if v.startswith("self_")]
+    if set(cfg.get("ignore", [])) - {a.arg for a in fn.args.args}: raise Unsupported("an ignored parameter disappeared")
+    params = [a.arg for a in fn.args.args if a.arg != "self" and a.arg not in cfg.get("ignore", [])] + \
+             [v for v in cfg["types"] if v.startswith("self_") or v in cfg.get("opaque", {}).values()]
     if set(params) != set(cfg["types"]): raise Unsupported(f"signature changed: {params}")
     params = [v for v in cfg.get("state", [])] + [p for p in params if p not in cfg.get("state", [])]
     stmts = fn.body[1:] if isinstance(fn.body[0], ast.Expr) and isinstance(fn.body[0].value, ast.Constant) else fn.body
@@ -415,16 +448,27 @@ def translate(cfg):
         if len(cs) != 1: raise Unsupported(f"constant {cn} not found exactly once")
         a, ta = Tr(cfg, False).ex(cs[0].value)
         consts.append(f"Definition {cn.lstrip('_')} : {ty(ta)} := {a}."); src += ast.get_source_segment(text, cs[0])
+    cenv = {}
+    for cn in cfg.get("self_consts", []):            # class attribute that must be a literal tuple/list of str: self.<cn> : list string
+        cs = [n for n in body if isinstance(n, (ast.Assign, ast.AnnAssign)) and nm(n.targets[0] if isinstance(n, ast.Assign) else n.target) == cn]
+        v = cs[0].value if len(cs) == 1 else None
+        if not isinstance(v, (ast.Tuple, ast.List)) or not all(isinstance(x, ast.Constant) and isinstance(x.value, str) for x in v.elts):
+            raise Unsupported(f"class attribute {cn} is not a literal tuple/list of strings")
+        consts.append(f"Definition self_{cn} : list string := [" + "; ".join(Tr(cfg, False).ex(x)[0] for x in v.elts) + "].")
+        cenv["self_" + cn] = LIST(STR); src += ast.get_source_segment(text, cs[0])
     for partial in (False, True):
-        tr = Tr(cfg, partial); tr.env = dict(cfg["types"])
-        def off_end(): raise Unsupported("control can reach the end of the function without `return`")
+        tr = Tr(cfg, partial); tr.env = dict(cfg["types"], **cenv)
+        def off_end():
+            if cfg.get("returns_none"): return "Some tt" if tr.partial else "tt"
+            raise Unsupported("control can reach the end of the function without `return`")
         try:
             main = tr.block(list(stmts), off_end); break
         except NeedPartial: continue
     tr.env = dict(cfg["types"])
     out = ["(* generated by harness/py2v.py from %s (%s%s), sha1 of the translated text %s - do not edit *)"
            % (cfg["file"], (cfg["cls"] + ".") if cfg["cls"] else "", cfg["func"], hashlib.sha1(src.encode()).hexdigest()[:12]),
-           "From Coq Require Import ZArith List Bool String Ascii.\nFrom PV Require Import PyLib.\nImport ListNotations.\nOpen Scope Z_scope.",
+           "From Coq Require Import ZArith List Bool String Ascii.\nFrom PV Require Import PyLib.\n" +
+           "".join(f"From PVG Require Import Gen_{d}.\n" for d in cfg.get("calls", {}).values()) + "Import ListNotations.\nOpen Scope Z_scope.",
            *consts, *tr.aux, f"Definition {cfg['name']}{tr.binders(params)} :=\n{main}."]
     return "\n\n".join(out) + "\n"
 
